@@ -25,6 +25,9 @@ def _cases(max_len: int) -> list[tuple[str, ...]]:
     seqs: list[tuple[str, ...]] = []
     for n in range(0, max_len + 1):
         seqs += list(itertools.product(names, repeat=n))
+    if max_len >= 2:
+        tri = ["u8", "u32", "c5", "dyn", "u8:3", "u8:5", "u16:4", "u16:12", "u32:12", "e16:4", "i24:4", "i24:20", "i16:4", "u8@1"]
+        seqs += [t_ for t_ in itertools.product(tri, repeat=3) if any(":" in x for x in t_)]
     seqs += [("u8", "u32", "u16"), ("u8:3", "u8:5", "u8:3"), ("u16:4", "u16:12", "u16:4"), ("u8", "dyn", "u32", "u8"), ("u8:3", "u16:4", "u8:3", "u32"),
              ("c5", "u64", "u8", "e16:4", "u16:4"), ("u8", "i24", "u8", "u64"), ("u8:3", "dyn4", "u8:3", "u32"), ("u8", "dyn", "u8:3", "u8:5", "u16"),
              ("u32@8", "u8", "u16:4"), ("u16", "u8@1", "u32")]
@@ -117,7 +120,7 @@ class _Model:
         placed: list[int] = []
         for i, (n, k) in enumerate(zip(seq, ks)):
             base = n.split(":")[0].split("@")[0]
-            storage = k.get("enum_of") or base
+            storage = k.get("storage") or k.get("enum_of") or base
             if k.get("bits"):
                 if unit is None or unit["type"] != storage or unit["remaining"] == 0:
                     # a new unit: at its recorded offset, or (behind a dynamic field) at the aligned current position
@@ -156,9 +159,10 @@ class _Model:
         # explicit offsets that overlay an earlier field or move backwards are outside this fold (the writer cannot go back; the reference image
         # would have to be defined per overlay): skip such layouts
         high = start
+        overlay = False
         for (_b, p_), ln in zip(expect_reads, placed):
             if p_ < high:
-                return []
+                overlay = True
             high = max(high, p_ + ln)
         for u in units:
             val = 0
@@ -166,6 +170,32 @@ class _Model:
                 val |= v << (used if self.endian == "<" else u["total"] - used - bits)
             ensure(u["at"] + u["size"])
             image[u["at"]:u["at"] + u["size"]] = val.to_bytes(u["size"], self.order)
+        if overlay:
+            # explicit offsets that overlay an earlier field or move backwards: the reader must fetch every field from its own recorded position
+            # (the writer cannot go back: only the reader is folded on these layouts); values are what the final image holds there
+            if any(k["size"] is None for k in ks):
+                return []
+            it = iter(zip(expect_reads, placed))
+            ui, unit2 = 0, None
+            for i, (n, k) in enumerate(zip(seq, ks)):
+                base = n.split(":")[0].split("@")[0]
+                if k.get("bits"):
+                    storage = k.get("storage") or k.get("enum_of") or base
+                    if unit2 is None or unit2["type"] != storage or unit2["remaining2"] == 0:
+                        unit2 = units[ui]
+                        ui += 1
+                        next(it)
+                        unit2["remaining2"], unit2["used2"] = unit2["total"], 0
+                        unit2["value2"] = int.from_bytes(image[unit2["at"]:unit2["at"] + unit2["size"]], self.order)
+                    off_ = unit2["used2"]
+                    expect_vals[f"f{i}"] = (unit2["value2"] >> (off_ if self.endian == "<" else unit2["total"] - off_ - k["bits"])) & ((1 << k["bits"]) - 1)
+                    unit2["used2"] += k["bits"]
+                    unit2["remaining2"] -= k["bits"]
+                    continue
+                unit2 = None
+                (_b2, p2), ln2 = next(it)
+                raw2 = bytes(image[p2:p2 + ln2])
+                expect_vals[f"f{i}"] = raw2 if base.startswith("c") else int.from_bytes(raw2, self.order)
         # unused bits of partly used units must be zero in the image for the round trip: rebuild those units from their fields only
         # the tail padding is on the absolute stream position in reader and writer alike (for a stream that starts aligned this is start + size)
         end = pos
@@ -219,7 +249,7 @@ class _Model:
         want_sizes = {f"f{i}": (len(expect_vals[f'f{i}']) if isinstance(expect_vals[f'f{i}'], bytes) else k["size"]) for i, k in enumerate(ks) if not k.get("bits")}
         if sizes != want_sizes:
             out.append(f"recorded sizes {sizes}, reference {want_sizes}")
-        if out:
+        if out or overlay:
             return out
         # ---- interpret the writer on the parsed values: the image comes back (bytes outside fields are zero in the image already, except unused unit bits)
         log.clear()
